@@ -575,6 +575,7 @@ void XercesXPath::parseExpression(XMLStringPool* const stringPool,
                     XercesNodeTest* nodeTest = new (fMemoryManager) XercesNodeTest(prefix, uri, fMemoryManager);
                     XercesStep* step = new (fMemoryManager) XercesStep(XercesStep::AxisType_CHILD, nodeTest);
                     stepsVector->addElement(step);
+                    firstTokenOfLocationPath = false;
                     break;
                 }
 
